@@ -1,0 +1,6 @@
+//go:build !verif
+// +build !verif
+
+package gf2p16
+
+func verifNoteAccess(in, out []byte) {}
